@@ -85,6 +85,12 @@ CHECKS = {
         text='Each generated hierarchy is written to disk, imported by CPython and inspected; for every probed expression form the proposals must contain all source-defined attributes along the MRO plus the instance dictionary, and go-to-definition must land where Python\'s lookup lands (last executed self-assignment among the assignment sites, else first MRO class). Empty proposals for a listed form are failures, so "evaluation returns nothing" cannot pass.',
         design_ref='DESIGN.md section 4 (C06)',
         note='Tree-shaped hierarchies only (no repeated ancestors); instance dictionaries are produced by calling plain methods in sorted-name order; unexecuted self-assignments are accepted as definitions (the statement leaves that open).'),
+    'C09': dict(
+        technique='model-based / stateful property-based testing: exhaustive enumeration of short operation histories + Hypothesis RuleBasedStateMachine; reference = a freshly created Project on the same disk state',
+        category='exploration',
+        text='Histories of rewrite / touch / create / request operations are applied to a long-lived Project (requests inside check_changes, as the server does); after every request the reply must equal that of a Project created at that moment. All histories up to length 3 (quick) / 4 (thorough) over a 13-symbol alphabet are enumerated; longer ones come from a rule-based state machine that shrinks whole sequences.',
+        design_ref='DESIGN.md section 4 (C09)',
+        note='One fixed import graph (diamond + late-created module) whose module contents are functions of toggles; modification times from a harness counter via os.utime; order inside alternative lists normalised (C17).'),
 }
 
 NOT_YET = 'check not built yet in this session (planned in DESIGN.md section 4); not claimed until its command exists'
